@@ -208,6 +208,16 @@ fn slot_clear(slot: usize) {
     }
 }
 
+trait ThreadIdCompat {
+    fn as_u64_compat(&self) -> u64;
+}
+impl ThreadIdCompat for std::thread::ThreadId {
+    fn as_u64_compat(&self) -> u64 {
+        // ThreadId(N) - stable enough to spread fixed-case threads over slots
+        format!("{:?}", self).chars().filter(|c| c.is_ascii_digit()).collect::<String>().parse().unwrap_or(0)
+    }
+}
+
 /// A case that does not come back (a loop in the library that neither returns nor polls) cannot
 /// be decided without a clock: after `VERIF_HANG_SECS` (default 600) on one tape the watchdog
 /// writes the tapes of the stuck workers to `<ID>-hang-<pid>.json`, says so and ends the process
@@ -769,8 +779,15 @@ where
     let known = load_known_findings(spec.id);
     let mut acc = Accum::default();
     let mut violations: Vec<Violation> = vec![];
+    // fixed cases are visible to the crash handler and the hang watchdog as well (one slot per
+    // thread, taken from the top of the table)
+    let slot = MAX_SLOTS - 1 - (std::thread::current().id().as_u64_compat() % 32) as usize;
     for item in items {
-        let outcome = match std::panic::catch_unwind(std::panic::AssertUnwindSafe(|| case(item))) {
+        let tape_for_slot = tape_of(item);
+        slot_set(slot, &tape_for_slot);
+        let caught = std::panic::catch_unwind(std::panic::AssertUnwindSafe(|| case(item)));
+        slot_clear(slot);
+        let outcome = match caught {
             Ok(o) => o,
             Err(_) => {
                 let message = LAST_PANIC
